@@ -425,3 +425,96 @@ func loopIsForward(loop ast.Stmt) bool {
 	}
 	return false
 }
+
+// guardsEntail: the conditions under which atom n runs (every branch outcome that guards it) entail goal. classify maps
+// a sub-condition to a named propositional variable and a polarity; sub-conditions it does not know are free variables.
+// The check enumerates the assignments of the variables: whenever all guards have the outcome that leads to n, goal holds.
+// At least one guard must mention a classified variable.
+func guardsEntail(g *an.Graph, n ast.Node, classify func(leaf ast.Expr) (name string, positive, ok bool), goal func(val map[string]bool) bool) bool {
+	type guard struct {
+		cond    ast.Expr
+		outcome bool
+	}
+	var guards []guard
+	for _, cd := range g.CondAtoms(func(ast.Expr) bool { return true }) {
+		for _, outcome := range []bool{true, false} {
+			if g.GuardedBy(n, cd, outcome) {
+				guards = append(guards, guard{cd.(ast.Expr), outcome})
+			}
+		}
+	}
+	vars := map[string]bool{}
+	var names []string
+	known := false
+	var collect func(e ast.Expr)
+	leafName := func(e ast.Expr) (string, bool) {
+		if name, pos, ok := classify(e); ok {
+			known = true
+			return name, pos
+		}
+		return "?" + an.ExprString(e), true
+	}
+	collect = func(e ast.Expr) {
+		e = an.Unparen(e)
+		switch x := e.(type) {
+		case *ast.UnaryExpr:
+			if x.Op == token.NOT {
+				collect(x.X)
+				return
+			}
+		case *ast.BinaryExpr:
+			if x.Op == token.LAND || x.Op == token.LOR {
+				collect(x.X)
+				collect(x.Y)
+				return
+			}
+		}
+		name, _ := leafName(e)
+		if !vars[name] {
+			vars[name] = true
+			names = append(names, name)
+		}
+	}
+	for _, gd := range guards {
+		collect(gd.cond)
+	}
+	if !known || len(names) > 10 {
+		return false
+	}
+	var eval func(e ast.Expr, val map[string]bool) bool
+	eval = func(e ast.Expr, val map[string]bool) bool {
+		e = an.Unparen(e)
+		switch x := e.(type) {
+		case *ast.UnaryExpr:
+			if x.Op == token.NOT {
+				return !eval(x.X, val)
+			}
+		case *ast.BinaryExpr:
+			if x.Op == token.LAND {
+				return eval(x.X, val) && eval(x.Y, val)
+			}
+			if x.Op == token.LOR {
+				return eval(x.X, val) || eval(x.Y, val)
+			}
+		}
+		name, pos := leafName(e)
+		return val[name] == pos
+	}
+	for mask := 0; mask < 1<<len(names); mask++ {
+		val := map[string]bool{}
+		for i, nm := range names {
+			val[nm] = mask&(1<<i) != 0
+		}
+		all := true
+		for _, gd := range guards {
+			if eval(gd.cond, val) != gd.outcome {
+				all = false
+				break
+			}
+		}
+		if all && !goal(val) {
+			return false
+		}
+	}
+	return true
+}
